@@ -14,12 +14,11 @@ def run(ctx):
     binp = snapalg.build()
     run_ = snapalg.Run(ctx)
     if ctx.tier == "quick":
-        fams, nb, seeds, par = ["SnapQuick"], 150, 1, 4
+        fams, nb, seeds, par = ["SnapQuick"], 100, 1, 4
     else:
         fams, nb, seeds, par = ["SnapThorough"], 400, 4, 8
-    snapalg.do_laws(ctx, fams, workers=2 if ctx.tier == "quick" else 6, par=1)
-    snapalg.do_direction_a(ctx, run_, binp, fams, par=par, split_parts=par)
-    paths = snapalg.do_direction_b(ctx, run_, binp, "snap", nb, par=par, split_parts=par, seeds=seeds)
+    paths = snapalg.run_all(ctx, run_, binp, fams, fams, "snap", nb, seeds=seeds, par=par,
+                            law_workers=2 if ctx.tier == "quick" else 4)
     if ctx.tier == "thorough" and paths:
         def mut(ev):
             ev["copies"][0]["obs"]["crc"] ^= 1
